@@ -1,5 +1,7 @@
 import LiquidVerif.Lemmas.AnalysisSim
 import LiquidVerif.Lemmas.AnalysisFirst
+import LiquidVerif.Lemmas.AnalysisKeyed
+import LiquidVerif.Lemmas.AnalysisSpans
 import LiquidVerif.Gen.NodeExprCoverage
 /-!
 # C19 — static analysis reports everything a render can touch
@@ -110,6 +112,78 @@ theorem analysis_reports_all (ns : Nodes) (tmpl : Name) (B : Name → Nodes) (hc
   rw [evOk1_iff] at this
   cases e <;> exact this
 
+/-! ## Sentence 2 under the hypothesis the `seen` de-duplication needs -/
+
+/-- **C19, both sentences, with rendered partials reached any number of times** (`_partial`; weaker
+hypothesis than `Hyp` on the render side): the tree is consistent (`ConsNodes B`: one template per partial
+name, no partial containing itself), and `hyp2b`: no `include` below a `render`/macro, every *included* name
+is reached once and is not also rendered, the root is not a partial, and **equal `render` keys (name,
+argument names) mean equal bound variables — every reach of a rendered partial under one key happens under the
+same static scope**.  Then, for any data, every lookup is a reported variable, every filter and tag is
+reported, and every lookup at an unbound reference has its root reported global: a `render` reached again with
+a known key is skipped soundly, with a new key it is revisited "globals only" soundly.
+(Invariant `InvG`: every keyed `seen` entry is in progress or all unbound lookups of that partial under that
+key's scope are already reported.) -/
+theorem analysis_sound_keyed_partial (ns : Nodes) (tmpl : Name) (B : Name → Nodes) (hc : ConsNodes B ns)
+    (h2 : hyp2b ns tmpl = true) (ch : List Bool) :
+    ∀ e ∈ render ns tmpl ch, Reported (analyze ns tmpl) e := by
+  intro e he
+  have htm : tmpl ∉ partNamesNodes ns := by
+    simp only [hyp2b, Bool.and_eq_true, Bool.not_eq_true'] at h2
+    intro hh; have := List.contains_iff_mem.2 hh; simp_all
+  have h1 := analysis_reports_all ns tmpl B hc htm ch e he
+  have hr := render_sub_reach ns tmpl ch e he
+  cases e with
+  | get l exc =>
+    refine ⟨h1, fun hx => ?_⟩
+    subst hx
+    exact keyed_globals B ns tmpl hc h2 _ hr l rfl
+  | filt f => exact h1
+  | tag t => exact h1
+
+/-- Boolean form evaluated by the driver on every case (`hyp2 → sound`; consistency holds by construction of
+the extracted trees). -/
+theorem sound_of_hyp2 (ns : Nodes) (tmpl : Name) (B : Name → Nodes) (hc : ConsNodes B ns)
+    (h2 : hyp2b ns tmpl = true) : (reach ns tmpl).all (evOk (analyze ns tmpl)) = true := by
+  rw [List.all_eq_true]
+  intro e he
+  rw [evOk_iff]
+  have htm : tmpl ∉ partNamesNodes ns := by
+    simp only [hyp2b, Bool.and_eq_true, Bool.not_eq_true'] at h2
+    intro hh; have := List.contains_iff_mem.2 hh; simp_all
+  have h := visitNodes_first ns tmpl false St.init [tmpl] B hc
+    (by intro nm hnm hh; rw [List.mem_singleton.1 hnm] at hh; exact htm hh)
+    (fun _ => List.mem_singleton.2 rfl) (by intro p hp; simp [St.init] at hp) (fun hh => by cases hh)
+  have h1 := reachNodes_sub_all (analyze ns tmpl) ns tmpl [] [] false h.recd e he
+  rw [evOk1_iff] at h1
+  cases e with
+  | get l exc =>
+    refine ⟨h1, fun hx => ?_⟩
+    subst hx
+    exact keyed_globals B ns tmpl hc h2 _ he l rfl
+  | filt f => exact h1
+  | tag t => exact h1
+
+/-! ## Locations (ties in with C20) -/
+
+/-- **No phantom locations**: for every tree and either mode of `_visit`, every location the analysis reports
+in `variables` or in `globals` is the (root, template, token index) of a `Path` that occurs in the expanded
+tree — a reported `Span` is always the position of a reference a render can evaluate, never an invented one.
+(Together with `analysis_reports_all`: the reported locations are exactly the tree's references.) -/
+theorem reported_locations_are_references (ns : Nodes) (tmpl : Name) :
+    (∀ l ∈ (analyze ns tmpl).vars, Ev.get l false ∈ allEvNodes ns tmpl) ∧
+    (∀ l ∈ (analyze ns tmpl).globs, Ev.get l false ∈ allEvNodes ns tmpl) := by
+  have h := visitNodes_locs ns tmpl false St.init
+  constructor
+  · intro l hl
+    rcases h.1 l hl with h1 | h1
+    · simp [St.init] at h1
+    · exact h1
+  · intro l hl
+    rcases h.2 l hl with h1 | h1
+    · simp [St.init] at h1
+    · exact h1
+
 /-! ## Stages (DESIGN §10): no partials, then `include`, then `render` -/
 
 mutual
@@ -197,6 +271,23 @@ theorem analysis_counterexample :
 `analysis_reports_all`: sentence 1 holds there although sentence 2 fails. -/
 example : ConsNodes (fun nm => if nm = "p" then one (out "x" 4) else .nil) ce1 := by
   simp [ConsNodes, ConsNode, ce1, one, block, out, partNamesNodes, partNamesNode]
+
+/-- `{% render 'q', k: y %}{% render 'q', k: x %}{% render 'q', j: 1 %}`, `q` = `{{ k }}{{ y }}`: the same partial
+rendered three times (same key twice, a new key once). `Hyp` fails, the weaker hypothesis holds. -/
+def ok2 : Nodes :=
+  .cons (.part ⟨some ("render", 3), [⟨[⟨"y", 18⟩], []⟩], [], [], false⟩ true "q" ["k"] none
+          (.cons (out "k" 3) (one (out "y" 10))))
+  (.cons (.part ⟨some ("render", 26), [⟨[⟨"x", 41⟩], []⟩], [], [], false⟩ true "q" ["k"] none
+          (.cons (out "k" 3) (one (out "y" 10))))
+  (one (.part ⟨some ("render", 49), [⟨[], []⟩], [], [], false⟩ true "q" ["j"] none
+          (.cons (out "k" 3) (one (out "y" 10))))))
+
+example : hyp2b ok2 "" = true ∧ ¬ Hyp ok2 "" := by decide
+example : ConsNodes (fun nm => if nm = "q" then .cons (out "k" 3) (one (out "y" 10)) else .nil) ok2 := by
+  simp [ConsNodes, ConsNode, ok2, one, out, partNamesNodes, partNamesNode]
+example : Ev.get ⟨"k", "q", 3⟩ false ∈ reach ok2 "" ∧ Ev.get ⟨"k", "q", 3⟩ true ∈ reach ok2 "" := by decide
+/-- The three counterexample trees violate the weaker hypothesis too (as they must). -/
+example : hyp2b ce1 "" = false ∧ hyp2b ce2 "" = false ∧ hyp2b ce3 "" = false := by decide
 
 /-! ## Tie of the dynamic model to the source (translator) -/
 
